@@ -557,7 +557,7 @@ def zeta(ctx, s, a=1, derivative=0, method=None, **kwargs):
                 try:
                     if verbose:
                         print("zeta: Attempting to use the Riemann-Siegel algorithm")
-                    return ctx.rs_zeta(s, derivative, **kwargs)
+                    return +ctx.rs_zeta(s, derivative, **kwargs)
                 except NotImplementedError:
                     if verbose:
                         print("zeta: Could not use the Riemann-Siegel algorithm")
